@@ -68,7 +68,7 @@ class C11(Check):
 
     def budget(self, tier, escalated):
         n = 420 if tier == 'quick' else 6000
-        return n * (3 if escalated and tier == 'quick' else 1)
+        return n * (2 if escalated and tier == 'quick' else 1)
 
     def nontrivial(self, sample):
         return bool(sample.get('nontrivial'))
@@ -118,10 +118,7 @@ class C11(Check):
             c = self._case(ops)
             if c:
                 out.append(c)
-        if n >= 2000:
-            out += self.exhaustive(4)
-        else:
-            out += self.exhaustive(2)
+        out += self.exhaustive(12 if n >= 2000 else 4)
         return out
 
     # ------------------------------------------------------------------
@@ -161,7 +158,10 @@ class C11(Check):
         out = []
         level = {'': []}
         seen = set()
+        self.exh_hists = []
         for d in range(depth):
+            if not level:
+                break
             nxt = {}
             for _, hist in level.items():
                 for op in self.SMALL_OPS:
@@ -176,6 +176,7 @@ class C11(Check):
                     nxt[key] = h
             level = nxt
             for h in level.values():
+                self.exh_hists.append(h)
                 c = self._case(h + self.SMALL_PROBES, dict(exhaustive=d + 1))
                 if c:
                     out.append(c)
@@ -209,7 +210,14 @@ class C11(Check):
             elif exp is not None and (rt.pattern != exp or rt is not r.routes.get(exp)):
                 bad.append(('name-wrong-route', f'router[{name!r}] is {rt.pattern!r} (stale object: '
                                                 f'{rt is not r.routes.get(exp)}), expected {exp!r}'))
-        fresh = spec.rebuild()
+        try:
+            fresh = spec.rebuild()
+        except core.Hang:
+            raise
+        except Exception as e:
+            bad.append(('survivors-cannot-coexist', f'a fresh router refuses the survivors ({type(e).__name__}): '
+                                                    f'routes {sorted(spec.routes)!r} hooks {sorted(spec.hooks)!r}'))
+            return bad
         f = fresh.router
         for rule in rules:
             def look(rr, runner):
@@ -305,6 +313,10 @@ class C11(Check):
                         bad.append(('remove-name-outcome', f'{op!r} answered {out}, survivors say {pred}'))
                         return bad
                 elif k == 'H':
+                    pred = spec.predict_hook(op[1])
+                    if pred is not None and pred != out and out in ('ok', 'RadiDictKeyError'):
+                        bad.append(('add-hook-outcome', f'{op!r} answered {out}, survivors say {pred}'))
+                        return bad
                     spec.add_hook(op[1], op[2], idx, out)
                 elif k == 'XH':
                     spec.remove_hook(op[1], out)
@@ -329,11 +341,16 @@ class C11(Check):
         cases.append([['A', '/a', ['GET'], 'n1', False], ['A', '/a', ['POST'], 'n2', False], ['XN', 'n1'], ['I', 'n2']])
         for _ in range(n):
             cases.append(E.gen_history(rng, max_edits=25)[0])
+        # every state of the exhaustive small scope (one history each), checked at its end
+        if not getattr(self, 'exh_hists', None):
+            self.exhaustive(12 if n >= 2000 else 4)
+        small = [h + self.SMALL_PROBES for h in self.exh_hists]
+        self._bump('search-exhaustive-states', len(small))
         per_key = {}
-        for ops in cases:
+        for ops in small + cases:
             evals += 1
             try:
-                bad = self.oracle(ops)
+                bad = self.oracle(ops, every=len(ops) > 0 and ops[-1] is not self.SMALL_PROBES[-1])
             except core.Hang:
                 bad = [('hang', 'an edit or lookup did not return within the watchdog')]
             except E.Outside:
@@ -347,8 +364,8 @@ class C11(Check):
                 small = self._shrink(ops, key)
                 what2 = [w for k, w in self._safe_oracle(small) if k == key]
                 findings.append(Finding(f'C11:{key}', what2[0] if what2 else what, dict(ops=small)))
-            if len(per_key) >= 6:
-                break
+            if len(per_key) >= 6 or (per_key and evals >= max(250, n // 4)):
+                break                            # the job of the search is to produce a replay
         for key, cnt in per_key.items():
             self._bump('finding-' + key, cnt)
         return evals, findings
